@@ -100,6 +100,13 @@ def cases(tier, seed):
                 cs.append({'gen': 'solve', 'routine': 'amen_solve', 'cls': cls, 'N': N, 'RB': gens.rank_profile(rng, d, 'rand', 2 if cls == 'spd' else 3), 'Rb': gens.rank_profile(rng, d, 'rand', 3),
                            'rhs': ['random', 'image'][i % 2], 'cfac': 10 ** rng.uniform(-0.3, 1.5), 'shift': [0.0, 0.1][(i // 3) % 2], 'eps': 10 ** rng.uniform(-9, -3), 'prec': prec,
                            'max_full': [0, 500][j % 2] if prec is not None else [500, 0][(i + j) % 2], 'x0': ['none', 'user', 'none', 'user', 'zero', 'zerocore'][(i // 3 + j + pi) % 6], 'vseed': rng.randrange(2 ** 40), 'sidx': j})
+    # right-hand sides orthogonal to the default all-ones guess along one mode (rank one, one zero-mean factor)
+    for i in range(12 if not T else 80):
+        d = rng.choice([2, 3, 3, 4])
+        N = [rng.randint(3, 7) for _ in range(d)]
+        cs.append({'gen': 'solve', 'routine': 'amen_solve', 'cls': ['dd', 'lap', 'spd'][i % 3], 'N': N, 'RB': gens.rank_profile(rng, d, 'rand', 2), 'Rb': [1] * (d + 1), 'rhs': 'zero-mean-factor',
+                   'zm_mode': [d - 1, 0, d // 2][(i // 3) % 3], 'cfac': 10 ** rng.uniform(-0.3, 1.5), 'shift': 0.0, 'eps': 10 ** rng.uniform(-9, -4), 'prec': [None, 'c', 'r'][(i // 2) % 3],
+                   'max_full': [0, 500][i % 2], 'x0': 'none', 'vseed': rng.randrange(2 ** 40), 'sidx': 0})
     for N in ([12, 12, 12], [8, 12, 12]):
         for prec in (None, 'c'):
             cs.append({'gen': 'solve', 'routine': 'amen_solve', 'cls': 'lap', 'N': N, 'RB': [1] * 4, 'Rb': [1, 2, 2, 1], 'rhs': 'random', 'cfac': 1.0, 'shift': 0.0, 'eps': 1e-10, 'prec': prec,
